@@ -568,13 +568,14 @@ Proof.
   replace (N.max (j0 * m) (L - i)) with (p + 1) by lia.
   replace (N.max (j0 * m) (L - (i + 1))) with p by lia.
   set (k := (j0 + 1) * m - (p + 1)).
-  replace ((j0 + 1) * m - p) with (k + 1) by lia.
+  assert (k + 1 <= m) as Hkm by (subst k; clearbody j0; clearbody p; clear - H1 H2; lia).
+  replace ((j0 + 1) * m - p) with (k + 1) by (subst k; clearbody j0; clearbody p; clear - H1 H2; lia).
   set (y := (D / 2 ^ (sh * (p + 1))) mod 2 ^ (sh * k)).
   assert (y < 2 ^ (sh * k)) as Hy by (apply N.mod_lt, pow2_ne0).
   assert (y * 2 ^ sh < 2 ^ w) as Hyw.
   { eapply N.lt_le_trans; [apply N.mul_lt_mono_pos_r; [apply pow2_pos|exact Hy]|].
     rewrite <- pow2_add. apply pow2_le. rewrite Hw.
-    replace (sh * k + sh) with (sh * (k + 1)) by lia. apply N.mul_le_mono_l. lia. }
+    replace (sh * k + sh) with (sh * (k + 1)) by (clear; lia). apply N.mul_le_mono_l. exact Hkm. }
   unfold shlw. rewrite N.shiftl_mul_pow2, wrap_small by assumption.
   rewrite N.lor_comm, (N.mul_comm y), lor_disjoint_add by apply dig_lt.
   replace (sh * (k + 1)) with (sh + sh * k) by lia.
@@ -618,8 +619,8 @@ Proof.
     rewrite seto_ok by (rewrite Hn; assumption). cbn [bind].
     (* the head digit *)
     rewrite vod_cons, lenw_digit_vals, pow_pow2 in HD.
-    assert (lenw r = L - 1 - i) as Er by lia. rewrite Er in HD.
-    replace (L - i) with (L - 1 - i + 1) in HD by lia.
+    assert (lenw r = L - 1 - i) as Er by (clear - Hi HiL; lia). rewrite Er in HD.
+    replace (L - i) with (L - 1 - i + 1) in HD by (clear - HiL; lia).
     apply head_digit in HD.
     2:{ rewrite <- Er, <- pow_pow2, <- (lenw_digit_vals digit r). apply vod_lt.
         unfold digit_vals. apply Forall_forall. intros y Hy. apply in_map_iff in Hy.
@@ -627,9 +628,9 @@ Proof.
     destruct HD as [Hx HD'].
     apply IH.
     + rewrite lenw_setw. assumption.
-    + lia.
+    + clear - Hi. lia.
     + assumption.
-    + replace (L - (i + 1)) with (L - 1 - i) by lia. assumption.
+    + replace (L - (i + 1)) with (L - 1 - i) by (clear - HiL; lia). assumption.
     + intros j Hj. rewrite getw_setw.
       destruct (N.eqb_spec j0 j) as [<-|Hne].
       * assert (j0 <? lenw d = true) as -> by (apply N.ltb_lt; rewrite Hn; assumption). cbn [andb].
